@@ -766,6 +766,468 @@ def lazy_heavy(ctx, binder, limit):
 
 
 # --------------------------------------------------------------------------
+# LazyCall objects with shared inner stages (spec/LazyCall.tla), B1 replay
+# --------------------------------------------------------------------------
+def _cfg_lazy(ctx, name, n, batches, maxobjs, heavy, restricted, invs):
+    p = os.path.join(ctx.work, "lazycall_%s.cfg" % name)
+    with open(p, "w") as f:
+        f.write("CONSTANTS N = %d\n Batches = {%s}\n MaxObjs = %d\n AllowHeavy = %s\n Restricted = %s\n" % (n, ", ".join(map(str, batches)), maxobjs, "TRUE" if heavy else "FALSE", "TRUE" if restricted else "FALSE"))
+        f.write("INIT Init\nNEXT Next\n")
+        for i in invs:
+            f.write("INVARIANT %s\n" % i)
+        f.write("CHECK_DEADLOCK FALSE\n")
+    return p
+
+
+def _canon(v):
+    """deterministic text of a parsed TLA+ value (graph node identity independent of TLC's ids)"""
+    if isinstance(v, dict):
+        return "[" + ",".join("%s:%s" % (k, _canon(v[k])) for k in sorted(v)) + "]"
+    if isinstance(v, (tuple, list)):
+        return "<" + ",".join(_canon(x) for x in v) + ">"
+    if isinstance(v, frozenset):
+        return "{" + ",".join(sorted(_canon(x) for x in v)) + "}"
+    return str(v)
+
+
+def _graph(dot):
+    """labelled state graph -> (states by canonical text, sorted adjacency, init keys, shortest-path parents)"""
+    nodes, edges, inits = tlc.parse_dot(dot)
+    key = {i: _canon(st) for i, st in nodes.items()}
+    states = {key[i]: st for i, st in nodes.items()}
+    adj = {k: [] for k in states}
+    for a, b, (act, args) in edges:
+        adj[key[a]].append(((act, tuple(args)), key[b]))
+    for k in adj:
+        adj[k] = sorted(set(adj[k]), key=lambda e: (_canon(e[0]), e[1]))
+    init = sorted(key[i] for i in inits)
+    parent = {k: None for k in init}
+    depth = {k: 0 for k in init}
+    queue = list(init)
+    while queue:
+        u = queue.pop(0)
+        for lab, v in adj[u]:
+            if v not in parent:
+                parent[v] = (u, lab)
+                depth[v] = depth[u] + 1
+                queue.append(v)
+    return states, adj, init, parent, depth
+
+
+def _path_to(parent, k):
+    out = []
+    while parent[k] is not None:
+        u, lab = parent[k]
+        out.append((u, lab, k))
+        k = u
+    return out[::-1]
+
+
+class LazyWorld:
+    """real LazyCall objects driven along a behaviour of spec/LazyCall.tla"""
+
+    def __init__(self, D, n):
+        import tensorflow as tf
+
+        self.D, self.n, self.tf = D, n, tf
+        self.ev = np.arange(1, n + 1, dtype=np.float64)
+        self.objs = [D.LazyCall(self.ident, {"ev": self.ev.copy()})]
+        self.uses = 0
+
+    @staticmethod
+    def ident(d):
+        return dict(d)
+
+    def step(self, act, args, observe=True):
+        D = self.D
+        if act == "Wrap":
+            o, heavy, extra = args
+            f = D.HeavyCall(self.ident) if heavy else self.ident
+            new = D.LazyCall(f, self.objs[o - 1])
+            new.prefetch = 0
+            idn = len(self.objs) + 1
+            if extra:
+                new["w%d" % idn] = 1000.0 * idn + self.ev
+            self.objs.append(new)
+            return None
+        if act == "Replace":
+            (o,) = args
+            idn = len(self.objs) + 1
+            keys = [k for k in self.objs[o - 1].extra]
+            key = keys[0] if keys else "w%d" % idn
+            self.objs.append(D.data_replace(self.objs[o - 1], key, 1000.0 * idn + self.ev))
+            return None
+        if act == "AsDataset":
+            o, b = args
+            self.objs[o - 1].as_dataset(b)
+            return None
+        if act == "Use":
+            o, b = args
+            self.uses += 1
+            obj = self.objs[o - 1]
+            if not observe:
+                D.data_split(obj, b)  # the entry point without consuming the batches: no further state change
+                return None
+            if self.uses % 2:
+                items = take(D.data_split(obj, b), 3 * self.n + 3)
+                merged = D.data_merge(*items) if items else None
+            else:
+                items = None
+                merged = D.batch_call(self.ident, obj, b)
+            return self.observe(obj, items, merged)
+        if act == "Iterate":
+            (o,) = args
+            obj = self.objs[o - 1]
+            if not observe:
+                return None
+            items = take(iter(obj), 3 * self.n + 3)
+            return self.observe(obj, items, D.data_merge(*items) if items else None)
+        raise tlc.MachineryError("unknown LazyCall action %s" % act)
+
+    def observe(self, obj, items, merged):
+        D = self.D
+        ok = True
+        lens = None
+        if items is not None:
+            lens = []
+            for it in items:
+                it = {k: np.asarray(v) for k, v in it.items()}
+                e = it["ev"]
+                lens.append(int(e.shape[0]))
+                for k, v in it.items():
+                    if k != "ev" and (v.shape != e.shape or not np.array_equal(v % 1000.0, e)):
+                        ok = False
+        eager = {k: np.asarray(v) for k, v in D.data_to_numpy(obj.eval()).items()}
+        if merged is None:
+            ok = False
+        else:
+            m = {k: np.asarray(v) for k, v in D.data_to_numpy(merged).items()}
+            if set(m) != set(eager) or any(m[k].shape != eager[k].shape or not np.array_equal(m[k], eager[k]) for k in eager):
+                ok = False
+        # the eager value itself: every entry belongs to the events 1..n in order
+        eager_ok = np.array_equal(eager["ev"], self.ev) and all(np.array_equal(v % 1000.0, self.ev) for k, v in eager.items() if k != "ev")
+        return {"lens": lens, "ok": ok, "eager_ok": bool(eager_ok)}
+
+    def batch_sizes(self):
+        return [0 if o.batch_size is None else int(o.batch_size) for o in self.objs]
+
+
+def _hist(path):
+    out = []
+    for _, (act, args), _ in path:
+        a = {"Use": "U", "Wrap": "W", "Replace": "R", "AsDataset": "A", "Iterate": "I"}[act]
+        out.append(a + ".".join("T" if x is True else "F" if x is False else str(x) for x in args))
+    return ";".join(out)
+
+
+def lazy_walks(ctx, D, states, adj, init, parent, depth, n, limit=None):
+    """execute every edge of the state graph on real objects: one walk per edge (shortest prefix from the
+    initial state on fresh objects; prefix steps are executed, the edge itself is executed and observed)"""
+    edges = [(u, lab, v) for u in adj for lab, v in adj[u]]
+    edges.sort(key=lambda e: (depth[e[0]], e[0], _canon(e[1]), e[2]))
+    if limit is not None and len(edges) > limit:
+        step = len(edges) / float(limit)
+        edges_run = [edges[int(i * step)] for i in range(limit)]
+    else:
+        edges_run = edges
+    walks = steps = drift = 0
+    for e in edges_run:
+        path = _path_to(parent, e[0]) + [e]
+        walks += 1
+        w = LazyWorld(D, n)
+        hist = _hist(path)
+        try:
+            for u, (act, args), v in path[:-1]:
+                steps += 1
+                w.step(act, args, observe=False)
+            steps += 1
+            got = w.step(e[1][0], e[1][1])
+        except Exception as ex:  # noqa: BLE001
+            _viol(ctx, "lazy_objects:%s:raise" % hist, {"error": repr(ex)[:300]})
+            continue
+        want = states[e[2]]
+        if got is not None:
+            obs = want["obs"]
+            if not got["eager_ok"]:
+                _viol(ctx, "lazy_objects:%s:eval" % hist, {"history": hist})
+                continue
+            if obs["ok"] and not got["ok"]:
+                # the property's observer on the real objects: lazy content != eager content
+                _viol(ctx, "lazy_objects:%s" % hist, {"history": hist, "batch_lengths_got": got["lens"], "batch_lengths_spec": list(obs["lens"]), "objects": [dict(o) for o in plain(want["objs"])]})
+                continue
+            if (not obs["ok"]) != (not got["ok"]) or (got["lens"] is not None and list(obs["lens"]) != got["lens"]):
+                drift += 1
+        if w.batch_sizes() != [o["bs"] for o in want["objs"]]:
+            drift += 1
+    return {"edges": len(edges), "edges_executed": len(edges_run), "walks": walks, "steps": steps, "model_drift": drift}
+
+
+def lazy_objects_part(ctx, binder, quick):
+    D = binder.D
+    n, batches = 5, (2, 3)
+    total = 0
+    runs = [("restricted", 3 if quick else 4, False, None)]
+    if not quick:
+        runs.append(("restricted_heavy", 3, True, 1500))  # tf.data pipelines are slow to build: an evenly spaced part of the edges
+    for name, maxobjs, heavy, limit in runs:
+        dot = os.path.join(ctx.work, "lazycall_%s.dot" % name)
+        r = tlc.run("LazyCall", _cfg_lazy(ctx, name, n, batches, maxobjs, heavy, True, ["TypeOK", "PushedDown", "UseFaithful"]), work=ctx.work, workers=8, timeout=1800, dump_dot=dot)
+        if r.violation:
+            raise tlc.MachineryError("LazyCall violates its own theorem %s: %s" % (r.violation, _hist([(None, (a, tuple(g)), None) for a, g, _ in r.trace[1:]])))
+        r.coverage = final_coverage(r)
+        ctx.tlc(r, "LazyCall %s N=%d batches=%s objs<=%d" % (name, n, list(batches), maxobjs), vacuity_actions=["Use", "Wrap", "Replace"])
+        states, adj, init, parent, depth = _graph(dot)
+        if len(states) != r.distinct:
+            raise tlc.MachineryError("LazyCall state graph has %d nodes, TLC reports %d states" % (len(states), r.distinct))
+        st = lazy_walks(ctx, D, states, adj, init, parent, depth, n, limit)
+        ctx.part("lazy_objects_" + name, states=len(states), **st)
+        ctx.count(st["steps"], distinct_key=("lazy_objects", name))
+        total += st["edges_executed"]
+        if limit is None and st["edges_executed"] != st["edges"]:
+            raise tlc.MachineryError("LazyCall replay covered %d of %d edges" % (st["edges_executed"], st["edges"]))
+        os.remove(dot)
+    # the lead scenario written out (sample) : sibling of a nested LazyCall, alternating batch sizes
+    ctx.sample({"op": "LazyCall objects", "history": "W1FT;R2;U2.2;U3.3;U2.2", "meaning": "outer stage with weight on a shared inner stage, data_replace sibling, data_split with batch 2 / 3 / 2: every batch aligned, merge = eval"})
+    # unrestricted: as_dataset and iteration as separate steps -- informational
+    r = tlc.run("LazyCall", _cfg_lazy(ctx, "unrestricted", n, batches, 3, False, False, ["TypeOK", "PushedDown", "UseFaithful", "IterFaithful"]), work=ctx.work, workers=1, timeout=900, expect_violation=True, coverage=False)
+    info = {"tlc_refutes": r.violation}
+    if r.violation == "IterFaithful" and r.trace:
+        w = LazyWorld(D, n)
+        got = None
+        path = [(None, (a, tuple(g)), None) for a, g, _ in r.trace[1:]]
+        for _, (act, args), _ in path:
+            got = w.step(act, args)
+        info.update(history=_hist(path), reproduces_on_code=bool(got is not None and not got["ok"]))
+    ctx.part("lazy_objects_unrestricted_informational", **info)
+    ctx.cov["tlc_runs"].append({"run": "LazyCall Restricted=FALSE (informational)", "violated": r.violation, "wall_s": round(r.wall, 2)})
+    return total
+
+
+# --------------------------------------------------------------------------
+# configuration-level cached-data file (spec/CachedData.tla), B1 replay
+# --------------------------------------------------------------------------
+SAMPLE_SIZES = {"data": 6, "phsp": 8, "bg": 4, "inmc": 3}
+BG_WEIGHT = 0.5
+
+
+class CacheWorld:
+    """sessions (fresh ConfigLoader each) on one configuration and one cached-data file"""
+
+    def __init__(self, wd, files, cfg, tag):
+        self.cfg = cfg
+        self.files = files
+        self.cache_file = os.path.join(wd, "cached_%s.npy" % tag)
+        if os.path.exists(self.cache_file):
+            os.remove(self.cache_file)
+        self.session = None
+        self.new_session()
+
+    def config(self):
+        c = self.cfg
+        d = {"dat_order": ["B", "C", "D"], "data": [self.files["data"]], "phsp": [self.files["phsp"]], "weight_scale": bool(c["weight_scale"])}
+        if c["has_bg"]:
+            d["bg"] = [self.files["bg"]]
+            d["bg_weight"] = BG_WEIGHT
+        if c["has_inmc"]:
+            d["inmc"] = [self.files["inmc"]]
+        if c["cache"]:
+            d["cached_data"] = self.cache_file
+        if not c["memo"]:
+            d["format"] = "simple"
+        return {
+            "data": d,
+            "decay": {"A": [["R", "C"]], "R": ["B", "D"]},
+            "particle": {"$top": {"A": {"J": 0, "P": -1}}, "$finals": {k: {"J": 0, "P": -1} for k in "BCD"}, "R": {"J": 0, "P": 1, "mass": 1.0, "width": 0.1}},
+        }
+
+    def new_session(self):
+        from tf_pwa.config_loader import ConfigLoader
+
+        self.session = ConfigLoader(self.config())
+        return None
+
+    def get_all_data(self):
+        import contextlib
+        import io
+
+        with contextlib.redirect_stdout(io.StringIO()):
+            if self.cfg["memo"]:
+                out = self.session.get_all_data()
+            else:
+                out = self.session.data.get_all_data()
+        return dict(zip(["data", "phsp", "bg", "inmc"], out))
+
+    def get_data(self, s):
+        if self.cfg["memo"]:
+            return {s: self.session.get_data(s)}
+        return {s: self.session.data.get_data(s)}
+
+    def close(self):
+        if os.path.exists(self.cache_file):
+            os.remove(self.cache_file)
+
+
+def _groups(x):
+    """a sample as handed out -> list of group dicts, or None when not configured"""
+    if x is None:
+        return None
+    if isinstance(x, (list, tuple)):
+        if all(g is None for g in x):
+            return None
+        return list(x)
+    return [x]
+
+
+def scale_count(s, x):
+    """how often the weights of sample s were scaled by n_data / n_s (-1: not configured, None: not a power)"""
+    g = _groups(x)
+    if g is None:
+        return -1
+    w = np.asarray(g[0]["weight"], dtype=np.float64)
+    n_s = SAMPLE_SIZES[s]
+    if w.shape != (n_s,):
+        return None
+    base = -BG_WEIGHT if s == "bg" else 1.0
+    factor = SAMPLE_SIZES["data"] / n_s
+    for k in range(0, 4):
+        if np.allclose(w, base * factor**k, rtol=1e-12, atol=0):
+            return k
+    return None
+
+
+def flat_leaves(x):
+    from tf_pwa.data import data_to_numpy, flatten_dict_data
+
+    g = _groups(x)
+    if g is None:
+        return None
+    return [{str(k): np.asarray(v) for k, v in flatten_dict_data(data_to_numpy(gi)).items()} for gi in g]
+
+
+def same_content(a, b):
+    fa, fb = flat_leaves(a), flat_leaves(b)
+    if fa is None or fb is None:
+        return fa is None and fb is None
+    if len(fa) != len(fb):
+        return False
+    for ga, gb in zip(fa, fb):
+        if set(ga) != set(gb):
+            return False
+        for k in ga:
+            if ga[k].shape != gb[k].shape or not np.array_equal(ga[k], gb[k], equal_nan=True):
+                return False
+    return True
+
+
+def cached_data_part(ctx, quick):
+    from tf_pwa.phasespace import PhaseSpaceGenerator
+    import tensorflow as tf
+
+    dot = os.path.join(ctx.work, "cacheddata.dot")
+    cfgp = os.path.join(ctx.work, "cacheddata.cfg")
+    with open(cfgp, "w") as f:
+        f.write("CONSTANTS MaxSessions = 3\nINIT Init\nNEXT Next\nINVARIANT TypeOK\nINVARIANT ScaledOnce\nCHECK_DEADLOCK FALSE\n")
+    r = tlc.run("CachedData", cfgp, work=ctx.work, workers=8, timeout=900, dump_dot=dot)
+    if r.violation:
+        raise tlc.MachineryError("CachedData violates its own theorem %s" % r.violation)
+    r.coverage = final_coverage(r)
+    ctx.tlc(r, "CachedData MaxSessions=3", vacuity_actions=["NewSession", "GetData"])
+    states, adj, init, parent, depth = _graph(dot)
+    os.remove(dot)
+    if len(states) != r.distinct or not any(lab[0] == "GetAllData" for k in init for lab, _ in adj[k]):
+        raise tlc.MachineryError("CachedData state graph incomplete")
+    wd = os.path.join(ctx.work, "cached")
+    os.makedirs(wd, exist_ok=True)
+    files = {}
+    for i, (name, n) in enumerate(SAMPLE_SIZES.items()):
+        tf.random.set_seed(ctx.seed + 100 + i)
+        mom = [np.asarray(x) for x in PhaseSpaceGenerator(3.0, [0.5, 0.3, 0.2]).generate(n)]
+        files[name] = os.path.join(wd, name + ".dat")
+        np.savetxt(files[name], np.stack(mom).transpose((1, 0, 2)).reshape((-1, 4)))
+    words = ["ANANA", "BAANBA", "ABNAB"]
+    rng = random.Random(ctx.seed)
+    if not quick:
+        words += ["DANBAD", "ANBNA", "AANAB", "BNANA"]
+        for _ in range(6):
+            w = "".join(rng.choice("AABDN") for _ in range(7))
+            while w.count("N") > 2:
+                w = w.replace("N", "A", 1)
+            words.append(w)
+    label = {"A": ("GetAllData", ()), "N": ("NewSession", ()), "B": ("GetData", ("bg",)), "D": ("GetData", ("data",))}
+    nsteps = nwalks = validated = 0
+    reference = {}
+    for k0 in init:
+        cfg = plain(states[k0]["cfg"])
+        if quick and (cfg["has_inmc"] or not cfg["cache"]):
+            continue
+        if not cfg["memo"] and cfg["weight_scale"] and not cfg["has_bg"]:
+            # SimpleData.get_data("bg") calls process_scale(None) and raises when weight_scale is set without a
+            # bg sample (MultiData returns None first): a crash outside C18, not a lossy round trip -- not bound
+            ctx.assume("format 'simple' with weight_scale and no bg sample is not bound: SimpleData.get_data('bg') raises in process_scale(None)")
+            continue
+        tag = "".join("%s%d" % (k[0] if k != "has_inmc" else "i", int(cfg[k])) for k in sorted(cfg))
+        cname = ",".join("%s=%d" % (k, int(cfg[k])) for k in sorted(cfg))
+        # the session without a cached-data file on the same configuration
+        refcfg = dict(cfg, cache=False)
+        rk = _canon(refcfg)
+        if rk not in reference:
+            w0 = CacheWorld(wd, files, refcfg, "ref")
+            reference[rk] = w0.get_all_data()
+            for s, x in reference[rk].items():
+                exp = -1 if _groups(x) is None else (1 if (cfg["weight_scale"] and s == "bg") else 0)
+                if scale_count(s, x) != exp:
+                    _viol(ctx, "cached_data:%s:no_cache:%s" % (cname, s), {"scaled": scale_count(s, x), "expected": exp})
+        ref = reference[rk]
+        for word in words:
+            nwalks += 1
+            world = CacheWorld(wd, files, cfg, tag)
+            k = k0
+            try:
+                for i, ch in enumerate(word):
+                    lab = label[ch]
+                    nxt = [v for l2, v in adj[k] if l2 == lab]
+                    if len(nxt) != 1:
+                        raise tlc.MachineryError("CachedData: %s is not a behaviour of the spec at step %d" % (word, i))
+                    k = nxt[0]
+                    nsteps += 1
+                    hist = word[: i + 1]
+                    got = world.new_session() if ch == "N" else world.get_all_data() if ch == "A" else world.get_data(lab[1][0])
+                    if got is None:
+                        continue
+                    want = states[k]["out"]
+                    bad = {}
+                    for s, x in got.items():
+                        c = scale_count(s, x)
+                        if c != want[s] or not same_content(x, ref[s]):
+                            bad[s] = {"scaled_times": c, "spec": want[s], "same_arrays_as_session_without_cache": same_content(x, ref[s])}
+                    ctx.count(1, distinct_key=("cached_data", cname, hist))
+                    if bad:
+                        _viol(ctx, "cached_data:%s:%s" % (cname, hist), {"config": cfg, "history": hist, "samples": bad})
+                        break
+                    validated += 1
+                # what is on disk at the end
+                if cfg["cache"] and states[k]["disk"]["present"]:
+                    if not os.path.exists(world.cache_file):
+                        _viol(ctx, "cached_data:%s:%s:file_missing" % (cname, word), {})
+                    else:
+                        from tf_pwa.data import load_data
+
+                        disk = load_data(world.cache_file)
+                        for s in SAMPLE_SIZES:
+                            if scale_count(s, disk.get(s)) != states[k]["disk"]["v"][s]:
+                                _viol(ctx, "cached_data:%s:%s:file:%s" % (cname, word, s), {"scaled_times": scale_count(s, disk.get(s)), "spec": states[k]["disk"]["v"][s]})
+            except tlc.MachineryError:
+                raise
+            except Exception as ex:  # noqa: BLE001
+                _viol(ctx, "cached_data:%s:%s:raise" % (cname, word), {"error": repr(ex)[:300]})
+            finally:
+                world.close()
+    ctx.part("cached_data", configurations=len(reference), walks=nwalks, steps=nsteps, words=words)
+    ctx.sample({"op": "cached data", "config": "weight_scale, bg, cached_data file, multi", "history": "ANANA = get_all_data / new session / get_all_data / new session / get_all_data", "expected": "bg weights scaled by n_data/n_bg exactly once in every session and in the file"})
+    return validated
+
+
+# --------------------------------------------------------------------------
 # real MAX_ITER boundary + recorded calls of the repository's tests  (B2)
 # --------------------------------------------------------------------------
 def shape_of(x):
@@ -1248,8 +1710,12 @@ def run(ctx):
     cases, v1 = datfile_part(ctx, 4 if quick else 5, 3, all_formats=not quick)
     v2 = writers_part(ctx, cases, quick)
     v3 = root_part(ctx)
+    v4 = lazy_objects_part(ctx, binder, quick)
+    ctx.log("LazyCall object histories replayed: %d edges" % v4)
+    v5 = cached_data_part(ctx, quick)
+    ctx.log("cached-data sessions replayed: %d observations" % v5)
     ctx.cov["exhaustive"] = True
-    ctx.cov["traces_validated_against_impl"] = binder.validated + v1 + v2 + v3
+    ctx.cov["traces_validated_against_impl"] = binder.validated + v1 + v2 + v3 + v4 + v5
     ctx.cov["rule"] = (
         "DataOps: every tree of <=%d dict/list/tuple/leaf nodes (leaves 1-d or N x 2, empty containers included) x N<=%d "
         "(N<=%d for %d-node trees) x (batch 1..N+1 | every boolean mask | every path) is one TLC case (state space = shapes + cases + "
